@@ -569,7 +569,7 @@ func writeReplay(prop string, h *harnessSpec, v *gosym.Violation) string {
 	out := map[string]any{
 		"property": prop, "harness": h.Func, "harness_file": h.File, "import": h.Import, "label": v.Label, "kind": v.Kind,
 		"detail": v.Detail, "model": v.Model, "trace": v.Trace, "params": v.Params, "schedule": v.Sched,
-		"confirmed": v.Native, "choices": choicesOf(v.Trace),
+		"confirmed": v.Native, "choices": choicesOf(v.Trace), "preempt": v.Preempt,
 	}
 	b, _ := json.MarshalIndent(out, "", " ")
 	os.WriteFile(path, b, 0o644)
@@ -589,7 +589,7 @@ func choicesOf(trace []gosym.Decision) []int {
 // confirm validates a counterexample: engine re-execution with the concrete model, then (single-goroutine
 // harnesses) a native run of the same harness against the real build.
 func confirm(prog *gosym.Program, h *harnessSpec, params map[string]int, v *gosym.Violation) (bool, string) {
-	opts := gosym.Options{Params: params, Workers: 1, Replay: v.Trace, ReplayModel: v.Model, Preempt: 1 << 30, MaxSteps: 5_000_000}
+	opts := gosym.Options{Params: params, Workers: 1, Replay: v.Trace, ReplayModel: v.Model, Preempt: v.Preempt, MaxSteps: 5_000_000}
 	if opts.ReplayModel == nil {
 		opts.ReplayModel = map[string]string{}
 	}
@@ -821,6 +821,7 @@ func cmdReplay(args []string) int {
 		Model    map[string]string `json:"model"`
 		Trace    []gosym.Decision  `json:"trace"`
 		Params   map[string]int    `json:"params"`
+		Preempt  int               `json:"preempt"`
 	}
 	if err := json.Unmarshal(b, &r); err != nil {
 		fmt.Fprintln(os.Stderr, err)
@@ -846,7 +847,7 @@ func cmdReplay(args []string) int {
 		fmt.Fprintln(os.Stderr, err)
 		return 2
 	}
-	v := &gosym.Violation{Harness: r.Harness, Label: r.Label, Kind: r.Kind, Model: r.Model, Trace: r.Trace, Params: r.Params}
+	v := &gosym.Violation{Harness: r.Harness, Label: r.Label, Kind: r.Kind, Model: r.Model, Trace: r.Trace, Params: r.Params, Preempt: r.Preempt}
 	ok, how := confirm(prog, spec, r.Params, v)
 	fmt.Printf("replay property=%s harness=%s label=%q reproduced=%v via=%s\n", r.Property, r.Harness, r.Label, ok, how)
 	if ok {
